@@ -86,20 +86,27 @@ EQUIV_PREFIX = {
 }
 
 
-def equiv_relevant(name, prop, all_names=()):
+_REL_CACHE = {}
+
+
+def equiv_relevant(name, prop, all_names=(), layered=True):
     """does `prop` rest on the generated-equals-model theorem `name`?  By prefix table, or because the
-    theorem covers a source function that the fingerprint rules attach to the property."""
+    theorem covers a source function that the fingerprint rules (incl. the layer closure) attach to the property."""
     if any(name.startswith(p) for p in EQUIV_PREFIX.get(prop, [])):
         return True
-    try:
-        golden = json.load(open(os.path.join(VERIF, 'fingerprints.json')))
-    except Exception:
-        golden = {}
-    names = set(all_names) | {name}
-    for key in golden:
-        if prop in fingerprint.props_of(key) and name in (fp_cover(key, names) or []):
-            return True
-    return False
+    names = frozenset(all_names) | {name}
+    ck = (prop, layered, names)
+    if ck not in _REL_CACHE:
+        try:
+            golden = json.load(open(os.path.join(VERIF, 'fingerprints.json')))
+        except Exception:
+            golden = {}
+        rel = set()
+        for key in golden:
+            if prop in fingerprint.props_of(key, layered):
+                rel |= set(fp_cover(key, names) or [])
+        _REL_CACHE[ck] = rel
+    return name in _REL_CACHE[ck]
 
 
 def run_translator(log, exclude=()):
@@ -213,7 +220,9 @@ def lean_phase(prop, tier, log):
         res['translator'] = run_translator(log, exclude=excl)
     path, thms = prop_theorems(prop)
     _all = res['translator'].get('theorems', []) + res['translator'].get('limb_theorems', [])
-    equiv_names = [n for n in res['translator'].get('theorems', []) if equiv_relevant(n, prop, _all)]
+    # C18 (profile independence) rests on a value-level function only through "it still translates": the value-level
+    # subset has no machine-integer arithmetic and no debug assertion, whatever the function now computes
+    equiv_names = [n for n in res['translator'].get('theorems', []) if equiv_relevant(n, prop, _all, layered=(prop != 'C18'))]
     limb_names = [n for n in res['translator'].get('limb_theorems', []) if equiv_relevant(n, prop, _all)]
     # a limb theorem rests on the earlier ones it rewrites with
     deps = res['translator'].get('limb_deps', {})
@@ -781,8 +790,13 @@ def decide(prop, tier, seed, replay, lean, bins, hooks, herr, driver, fp, workdi
     for entry in fp['changed']:
         key = entry.rsplit(' (', 1)[0]
         cov = fp_cover(key, all_names) if entry.endswith('(changed)') else None
+        value_level = set(lean.get('translator', {}).get('theorems', []))
         if cov and all(n in ok_names for n in cov):
             retranslated.append(entry)
+        elif (prop == 'C18' and cov and all(n in value_level for n in cov) and prop not in fingerprint.props_of(key, False)):
+            # still inside the value-level subset (no machine-integer arithmetic, no debug assertion): nothing in it can
+            # depend on the build profile, even though it no longer equals the model
+            retranslated.append(entry + ' [C18: still translates; value-level subset is profile-free]')
         else:
             still_changed.append(entry)
     fp = dict(fp, changed=still_changed, retranslated=retranslated)
